@@ -44,6 +44,7 @@ type Contract struct {
 	Requires    []*Clause
 	Ensures     []*Clause
 	PanicsIf    []*Clause
+	Captures    []*Clause
 	Modifies    []ast.Expr
 	HasModifies bool
 	FreshResult bool
@@ -110,9 +111,11 @@ type Contracts struct {
 }
 
 type SpecFun struct {
-	Name string
-	Args []string
-	Ret  string
+	Name   string
+	Args   []string
+	Ret    string
+	GoType string // optional Go type of the result (e.g. *ZogIssue), resolved in Pkg
+	Pkg    string
 }
 
 type AxiomDecl struct {
@@ -374,7 +377,7 @@ func (C *Contracts) loadContractFile(path string, pkgPath string, isGo bool) {
 				cur.Trusted = true
 				C.Externs[name] = cur
 			}
-		case "requires", "ensures", "invariant", "panics_if":
+		case "requires", "ensures", "invariant", "panics_if", "captures":
 			cl, err := parseClause(kw, rest, path, ln)
 			if err != nil {
 				errf("%v", err)
@@ -399,6 +402,8 @@ func (C *Contracts) loadContractFile(path string, pkgPath string, isGo bool) {
 				cur.Ensures = append(cur.Ensures, cl)
 			case "panics_if":
 				cur.PanicsIf = append(cur.PanicsIf, cl)
+			case "captures":
+				cur.Captures = append(cur.Captures, cl)
 			}
 		case "modifies":
 			var items []ast.Expr
@@ -578,7 +583,13 @@ func (C *Contracts) loadContractFile(path string, pkgPath string, isGo bool) {
 				return
 			}
 			name, params, _ := parseNameParams(rest[:i+1])
-			C.SpecFuns[name] = &SpecFun{Name: name, Args: params, Ret: strings.TrimSpace(rest[i+1:])}
+			ret := strings.TrimSpace(rest[i+1:])
+			goT := ""
+			if j := strings.Index(ret, " as "); j > 0 {
+				goT = strings.TrimSpace(ret[j+4:])
+				ret = strings.TrimSpace(ret[:j])
+			}
+			C.SpecFuns[name] = &SpecFun{Name: name, Args: params, Ret: ret, GoType: goT, Pkg: pkgPath}
 			cur, curLoop = nil, nil
 		case "axiom":
 			// axiom name(x Sort, y Sort): raw smt
